@@ -385,7 +385,7 @@ func concScenario(variant int) *engine.Scenario {
 		perm = checkPermutation(cl, final)
 	}
 	sc.Check = func(x *vrt.Exec) (string, bool, []*engine.Finding) {
-		fs := hk.Generic(x, hk.Opts{Races: true})
+		fs := hk.Generic(x, hk.Opts{})
 		add := func(sig, msg string) { fs = append(fs, &engine.Finding{Sig: sig, Msg: msg}) }
 		if x.Crash == "" && !x.Deadlock {
 			if perm != "" {
